@@ -6,9 +6,14 @@
 //!       TE\t<x>\t<optimized grammar sexp>\t<error>          the emitted code could not be read
 //!   c02 one GRAMMAR_TEXT       the same for one grammar given in pest syntax
 //!   c02 batch COUNT SEED       Rust source of the behavioural batch (derive parsers + VM) on stdout
+//!   c02 batch 0 SEED FILE [lit]     the same for exactly the grammars of FILE (one per line, escaped)
+//!   c02 batch 0 SEED FILE around    FILE holds pinpointed constructs (ty, kind, what, construct, grammar): the batch is made of
+//!                                   grammars built around them (c02_around.rs), run on inputs over each rule's own literals
 //!   c02 witness                the witnesses of the three known classes, in pest syntax, one per line
 #[path = "../genread.rs"]
 mod genread;
+#[path = "../c02_around.rs"]
+mod c02_around;
 use pvharness::gram::*;
 use pvharness::*;
 use quote::quote;
@@ -50,7 +55,45 @@ fn map_ge(e: &GE, f: &mut dyn FnMut(&GE) -> Option<GE>) -> GE {
     }
 }
 
+/// several pushes of different literals followed by one of the stack readers (whole stack, top, slices with every kind of bound,
+/// bounded and unbounded), bare and under a predicate / alternative / repetition, in rules of every modifier
+pub fn gen_stack_readers(r: &mut Rng) -> Vec<GRule> {
+    use GE::*;
+    let tys = [Ty::Normal, Ty::Normal, Ty::Atomic, Ty::Compound, Ty::NonAtomic, Ty::Silent];
+    let n = 2 + r.below(2) as usize;
+    let b = |e: GE| Box::new(e);
+    let mut rules: Vec<GRule> = vec![];
+    for i in 0..n {
+        let lits = [["x", "y", "5"], ["y", "x", "x"], ["x", "5", "y"], ["xy", "x", "y"]][r.below(4) as usize];
+        let depth = 2 + r.below(2) as usize;
+        let reader = match r.below(9) {
+            0 => Id("PEEK_ALL".into()), 1 => Id("POP_ALL".into()), 2 => Id("PEEK".into()), 3 => Seq(b(Id("POP".into())), b(Id("POP".into()))),
+            4 | 5 => Slice(0, None),
+            6 => Slice(r.below(3) as i32, None),
+            7 => Slice(-(1 + r.below(3) as i32), None),
+            _ => Slice(r.below(4) as i32 - 1, Some(r.below(5) as i32 - 2)),
+        };
+        let used = match r.below(6) {
+            0 => Seq(b(Pos(b(reader.clone()))), b(reader)), 1 => Cho(b(Seq(b(Str("5".into())), b(Str("5".into())))), b(reader)),
+            2 => Rep(b(Seq(b(Str(lits[0].into())), b(reader)))), 3 => Seq(b(Neg(b(reader))), b(Rep(b(Id("ANY".into()))))),
+            _ => reader,
+        };
+        let mut e = used;
+        if r.chance(1, 3) { e = Seq(b(e), b(Id(["EOI", "DROP", "POP"][r.below(3) as usize].into()))); }
+        for k in (0..depth).rev() { e = Seq(b(Push(b(Str(lits[k].into())))), b(e)); }
+        if i + 1 < n && r.chance(1, 3) { e = Seq(b(e), b(Opt(b(Id(format!("r{}", i + 1)))))); }
+        rules.push(GRule { name: format!("r{}", i), ty: tys[r.below(6) as usize], e });
+    }
+    rules
+}
+
 pub fn gen_c02(r: &mut Rng, extras: bool) -> Vec<GRule> {
+    // stack-heavy families: unequal stack entries below every kind of reader (the general stream rarely stacks two values)
+    match r.below(12) {
+        0 => { let mut g = gen_stack_readers(r); if r.chance(1, 3) { g.push(GRule { name: "WHITESPACE".into(), ty: Ty::Silent, e: GE::Str(" ".into()) }); } return g; }
+        1 => return gen_stack_grammar(r, extras),
+        _ => {}
+    }
     let cfg = GenCfg { stack: r.chance(1, 2), extras, counts: r.chance(1, 3), builtins: r.chance(1, 3) };
     let mut g = gen_grammar(r, &cfg);
     let tys = [Ty::Normal, Ty::Silent, Ty::Atomic, Ty::Compound, Ty::NonAtomic];
@@ -240,7 +283,14 @@ fn main() {
             // `batch COUNT SEED` = witnesses + probes + COUNT generated grammars; `batch 0 SEED FILE` = exactly the grammars of FILE (one per line, escaped)
             let file = arg(4);
             let unesc = |l: &str| l.replace("\\n", "\n").replace("\\t", "\t").replace("\\\\", "\\");
-            let mut texts: Vec<String> = if !file.is_empty() {
+            let around_mode = arg(5) == "around";
+            let mut texts: Vec<String> = if around_mode {
+                let mut out = vec![];
+                let specs: Vec<c02_around::Spec> = std::fs::read_to_string(&file).expect("construct file").lines().filter_map(c02_around::parse_spec).collect();
+                let per = std::cmp::max(3, 16 / std::cmp::max(1, specs.len()));
+                for sp in &specs { c02_around::around(sp, extras, &mut out, per); }
+                out
+            } else if !file.is_empty() {
                 std::fs::read_to_string(&file).expect("grammar file").lines().filter(|l| !l.trim().is_empty()).map(|l| unesc(l)).collect()
             } else {
                 WITNESSES.iter().filter(|(_, x, _)| x.is_empty() || extras).map(|(_, _, t)| t.to_string()).chain(PROBES.iter().map(|t| t.to_string())).collect()
@@ -250,7 +300,7 @@ fn main() {
             texts.extend(builtin_texts.iter().cloned());
             let lit_mode = arg(5) == "lit";
             let mode_of = |t: &str| -> u8 {
-                if lit_mode { 3 } else if builtin_texts.iter().any(|b| b == t) { 1 }
+                if around_mode { 4 } else if lit_mode { 3 } else if builtin_texts.iter().any(|b| b == t) { 1 }
                 else if ["NEWLINE", "ANY", "ASCII"].iter().any(|k| t.contains(k)) || UNICODE.iter().any(|k| t.contains(k)) { 2 } else { 0 }
             };
             texts.retain(|t| derive_tokens(t).ok().and_then(|ts| syn::parse2::<syn::File>(ts).ok()).is_some());
